@@ -205,7 +205,9 @@ impl EndemicOTReceiver {
     ) -> Self {
         let next_state = Self {
             packed_choice_bits: rng.gen(),
-            t_a_list: array::from_fn(|_| Scalar::random(&mut *rng)),
+            // a zero scalar would make the receiver's pad H2(idx, identity),
+            // whatever the sender replies: draw non-zero ones
+            t_a_list: array::from_fn(|_| *NonZeroScalar::random(&mut *rng)),
         };
 
         msg1.r_list
